@@ -608,9 +608,10 @@ example : (readLoc 8 (asCompleteMem 8 acArg.2 acArg.1).2 (asCompleteMem 8 acArg.
   decide
 
 /-- **FRAME at the only call site of `asComplete`** (`gts.Slice`, sequence.go:278): the argument
-is the result of `Expand(…).Expand(…)`, a location built in fresh arrays (`allocLoc`; that
-`Expand` never returns a slice of its receiver is checked on the real code by the harness oracle
-`expand-fresh`).  For every location `l`, every heap `h` — the feature's own location, other
+is the result of `Expand(…).Expand(…)`, a location built in fresh arrays (`allocLoc` is the
+stand-in here; that the real `Expand` never returns a slice of its receiver is the theorem
+`expand_fresh` of Gts/Props/C11Fresh.lean, and `sliceLoc_frame` there is this statement for the
+heap programs of `Expand` themselves).  For every location `l`, every heap `h` — the feature's own location, other
 features sharing its slices — and every nesting depth: nothing that existed is written. -/
 theorem asComplete_fresh_frame (l : Loc) (h : Heap MLoc) (fuel : Nat) :
     h <+: (asCompleteMem fuel (allocLoc l h).2 (allocLoc l h).1).2 := by
